@@ -61,6 +61,9 @@ def skeletons(nf):
        ('r', ['any', 'any']), {('d1', 1): nf})
     sk('headstruct', [(F('r', F('f', X, F('g', Y)), L(X, Y, tail=T)), conj(call('d2', X, Y), eq(T, NIL)))],
        ('r', ['any', 'any']), {('d2', 2): nf})
+    sk('allfail', [(A('never'), conj(call('d1', X), FAIL)), (F('never2', A('a')), FAIL), (F('never2', X), conj(call('d1', X), FAIL)),
+                   (F('r', X), conj(call('d1', X), ('not', call('never')))), (F('r', X), call('never2', X)), (F('r', X), conj(call('never'), call('d1', X)))],
+       ('r', ['any']), {('d1', 1): nf})
     sk('alias', [(F('r', X), conj(eq(X, Y), call('d1', Y))), (F('r', X), conj(call('same', X, Y), call('d1', Y), eq(X, C(1)))),
                  (F('same', Z, Z), TRUE)],
        ('r', ['any']), {('d1', 1): nf})
